@@ -60,15 +60,34 @@ func start() (*pdserver.PD, *gate.Sched, error) {
 	return pd, sched, nil
 }
 
+// Safe points are 64-bit values; the recordings use small integers v = band*bandSize + offset, order-preserving:
+// band 0..7 stands for band<<61 + offset, band 8 for the top of the range (offset bandSize-1 = the largest value).
+const bandSize = 10000
+
+func toReal(v int) uint64 {
+	band, off := v/bandSize, uint64(v%bandSize)
+	if band >= 8 {
+		return math.MaxUint64 - (bandSize - 1 - off)
+	}
+	return uint64(band)<<61 + off
+}
+
+func fromReal(x uint64) int {
+	if x > math.MaxUint64-bandSize {
+		return 8*bandSize + int(bandSize-1-(math.MaxUint64-x))
+	}
+	return int(x>>61)*bandSize + int(x&(1<<61-1))
+}
+
 func update(pd *pdserver.PD, v int) (int, error) {
-	r, err := pd.S.UpdateGCSafePoint(context.Background(), &pdpb.UpdateGCSafePointRequest{Header: pd.Header(), SafePoint: uint64(v)})
+	r, err := pd.S.UpdateGCSafePoint(context.Background(), &pdpb.UpdateGCSafePointRequest{Header: pd.Header(), SafePoint: toReal(v)})
 	if err != nil {
 		return 0, err
 	}
 	if r.GetHeader().GetError() != nil {
 		return 0, fmt.Errorf("%v", r.GetHeader().GetError())
 	}
-	return int(r.NewSafePoint), nil
+	return fromReal(r.NewSafePoint), nil
 }
 
 func get(pd *pdserver.PD) (int, error) {
@@ -79,7 +98,7 @@ func get(pd *pdserver.PD) (int, error) {
 	if r.GetHeader().GetError() != nil {
 		return 0, fmt.Errorf("%v", r.GetHeader().GetError())
 	}
-	return int(r.SafePoint), nil
+	return fromReal(r.SafePoint), nil
 }
 
 // replay drives concurrent handler calls through gate-level interleavings taken from TLC behaviours of
@@ -277,8 +296,17 @@ func stress(args map[string]string) error {
 				defer wg.Done()
 				lr := rand.New(rand.NewSource(sd))
 				for k := 0; k < per; k++ {
-					// values drift upwards with a lot of overlap between goroutines
+					// values drift upwards with a lot of overlap between goroutines; the last round covers the whole
+					// 64-bit range (smaller values must be answered with what is stored)
 					v := k*3 + lr.Intn(40)
+					if r == rounds-1 {
+						// climb through the whole 64-bit range band by band; every fifth value comes from a lower band
+						band := k * 9 / per
+						if lr.Intn(5) == 0 {
+							band = lr.Intn(band + 1)
+						}
+						v = band*bandSize + k*3 + lr.Intn(40)
+					}
 					kind := "U"
 					if lr.Intn(4) == 0 {
 						kind = "G"
